@@ -507,3 +507,12 @@ def matched_count(pe, gs, a, ids):
 
 
 NS['matched_count'] = matched_count
+
+
+def isnone_or_dir(pe, d):
+	"""d is empty or a directory prefix ending in '/'"""
+	t = to_term(d)
+	return SBool(z3.Or(t == z3.StringVal(''), z3.SuffixOf(z3.StringVal('/'), t)))
+
+
+NS['isnone_or_dir'] = isnone_or_dir
